@@ -172,3 +172,11 @@ fn transform_quat(v: Cartesian, q: [f64; 4]) -> Cartesian {
 
     Cartesian::new(result_x, result_y, result_z)
 }
+
+#[cfg(feature = "verif")]
+impl CRS {
+    /// Verification hook: read-only view of the 62 frame vertices
+    pub fn verif_vertices(&self) -> &Vec<Cartesian> {
+        &self.vertices
+    }
+}
